@@ -27,7 +27,7 @@ func init() {
 }
 
 type docEntry struct {
-	idLine   string   // "id: x" or "" (missing)
+	idLine   string // "id: x" or "" (missing)
 	id       string
 	backends []string // rendered backend blocks
 	extra    []string // further lines (indented 4)
